@@ -671,6 +671,7 @@ struct Dumper
     // generic fallback: keep children so no call is lost
     O["k"] = "other";
     O["cls"] = E->getStmtClassName ();
+    addIv (O, E);
     json::Array A;
     for (Stmt const *C : E->children ())
       {
